@@ -49,6 +49,8 @@ type Round struct {
 	Late     string `json:"late,omitempty"`      // calls on the root after the hold
 	Partial  bool   `json:"partial,omitempty"`   // no final drain: the tree is closed wherever the programs left it
 	Close    string `json:"close"`
+	// Flaky: per leaf (empty = none), transient Reset failures of the leaf's source (see Flaky in mixer.go)
+	Flaky []Flaky `json:"flaky,omitempty"`
 }
 
 // SessionInfo is what the classifier needs.
@@ -74,6 +76,13 @@ type SessionInfo struct {
 	DisparityInNested bool
 	ValueLeaf         bool // a leaf is a value-type (non-pointer) iterator
 	SameValueSiblings bool // a mixer over two leaves of one and the same value type
+	// transient Reset failures of leaves
+	FlakyLeaves        int  // max number of such leaves in a round
+	FlakyBelowInner    bool // such a leaf below an inner mixer
+	ResetTransient     bool // Reset of a root while a leaf still had a failure to deliver
+	ResetRecovered     bool // a Reset that every leaf accepted followed a failed one
+	RecoveredAfterRead bool // ... with HasNext/Next calls in between
+	RecoveredNested    bool // ... on a root over at least one mixer
 }
 
 const (
@@ -219,6 +228,35 @@ type liveRound struct {
 	selViol    *vstat.Violation
 	closeAt    int
 	calls      int
+	// transient Reset failures (see run() in mixer.go): wrappers of the flaky leaves; limbo = a Reset failed and no
+	// Reset that every leaf accepted has followed yet - calls are made, nothing is judged
+	flakies    []*flaky
+	limbo      bool
+	limboCalls int
+}
+
+func (lr *liveRound) pending() bool {
+	for _, f := range lr.flakies {
+		if f.left > 0 {
+			return true
+		}
+	}
+	return false
+}
+
+// recovered is called after a Reset that every leaf accepted.
+func (lr *liveRound) recovered(info *SessionInfo) {
+	if !lr.limbo {
+		return
+	}
+	info.ResetRecovered = true
+	if lr.limboCalls > 0 {
+		info.RecoveredAfterRead = true
+	}
+	if lr.root.depth >= 2 {
+		info.RecoveredNested = true
+	}
+	lr.limbo = false
 }
 
 func (lr *liveRound) where(phase string, p int, prog string) string {
@@ -248,11 +286,19 @@ func openRound(no int, r Round, info *SessionInfo) *liveRound {
 				}
 			}
 			nd.want = sessEnc(s, no, nd.leaf, r.NilEmpty)
-			nd.it = source(r.Kinds[nd.leaf], nd.want)
+			var fl *Flaky
+			if nd.leaf < len(r.Flaky) {
+				fl = &r.Flaky[nd.leaf]
+			}
+			var fw *flaky
+			nd.it, fw = flakySource(r.Kinds[nd.leaf], nd.want, fl)
+			if fw != nil {
+				lr.flakies = append(lr.flakies, fw)
+			}
 			if !CanReset(r.Kinds[nd.leaf]) {
 				lr.resettable = false
 			}
-			if IsValueKind(r.Kinds[nd.leaf]) {
+			if IsValueKind(r.Kinds[nd.leaf]) && fw == nil {
 				info.ValueLeaf = true
 			}
 			lr.created = append(lr.created, nd.it)
@@ -266,7 +312,7 @@ func openRound(no int, r Round, info *SessionInfo) *liveRound {
 		lm, rm := nd.l.mask, nd.r.mask
 		checking := func(x, y int) bool {
 			info.SelCalls++
-			if lr.selViol == nil {
+			if lr.selViol == nil && !lr.limbo {
 				ok := func(e int, mask uint) bool {
 					return e&(1<<20) != 0 && (e>>15)&31 == no && mask&(1<<uint((e>>12)&7)) != 0
 				}
@@ -286,13 +332,26 @@ func openRound(no int, r Round, info *SessionInfo) *liveRound {
 				if ch.leaf < 0 && (ch.l.leaf >= 0 && r.Kinds[ch.l.leaf] == KDisparity || ch.r.leaf >= 0 && r.Kinds[ch.r.leaf] == KDisparity) {
 					info.DisparityInNested = true
 				}
+				if ch.leaf < 0 {
+					for _, gc := range []*tnode{ch.l, ch.r} {
+						if gc.leaf >= 0 {
+							if _, ok := gc.it.(*flaky); ok {
+								info.FlakyBelowInner = true
+							}
+						}
+					}
+				}
 			}
 		}
 		if nd.l.leaf < 0 && nd.r.leaf < 0 {
 			info.BothSidesMixers = true
 		}
 		if nd.l.leaf >= 0 && nd.r.leaf >= 0 && r.Kinds[nd.l.leaf] == r.Kinds[nd.r.leaf] && IsValueKind(r.Kinds[nd.l.leaf]) {
-			info.SameValueSiblings = true
+			_, f1 := nd.l.it.(*flaky)
+			_, f2 := nd.r.it.(*flaky)
+			if !f1 && !f2 {
+				info.SameValueSiblings = true
+			}
 		}
 		if nd.depth >= 3 {
 			info.Depth3 = true
@@ -300,6 +359,7 @@ func openRound(no int, r Round, info *SessionInfo) *liveRound {
 	}
 	build(root)
 	lr.want = root.want
+	info.FlakyLeaves = max(info.FlakyLeaves, len(lr.flakies))
 	if n > info.MaxLeaves {
 		info.MaxLeaves = n
 	}
@@ -353,6 +413,16 @@ func (lr *liveRound) runProg(phase, prog string, info *SessionInfo) *vstat.Viola
 	for p := 0; p < len(prog) && !lr.dead; p++ {
 		where := lazyStr(func() string { return lr.where(phase, p, prog) })
 		lr.calls++
+		if lr.limbo && prog[p] != 'r' {
+			// between a failed Reset and the next accepted one: the call is made, nothing is judged
+			if prog[p] == 'h' {
+				lr.root.mix.HasNext()
+			} else {
+				lr.root.mix.Next()
+			}
+			lr.limboCalls++
+			continue
+		}
 		switch prog[p] {
 		case 'h':
 			got := lr.root.mix.HasNext()
@@ -375,9 +445,17 @@ func (lr *liveRound) runProg(phase, prog string, info *SessionInfo) *vstat.Viola
 				return v
 			}
 		case 'r':
+			transient := lr.resettable && lr.pending()
 			err := lr.root.mix.Reset()
 			if lr.selViol != nil {
 				return vstat.V(lr.selViol.Sig, "%s: during Reset: %s", where, lr.selViol.Msg)
+			}
+			if transient {
+				// a leaf had a failure to deliver: neither the result nor the state of the tree is judged until a
+				// Reset that every leaf accepts
+				info.ResetTransient = true
+				lr.limbo, lr.limboCalls, lr.lastH = true, 0, nil
+				break
 			}
 			if !lr.resettable {
 				info.ResetRefused = true
@@ -388,8 +466,9 @@ func (lr *liveRound) runProg(phase, prog string, info *SessionInfo) *vstat.Viola
 				break
 			}
 			if err != nil {
-				return vstat.V("mixer:reset-failed", "%s: Reset returned %v although every leaf can be reset", where, err)
+				return vstat.V("mixer:reset-failed", "%s: Reset returned %v although every leaf can be reset%s", where, err, flakyNote(lr.flakies...))
 			}
+			lr.recovered(info)
 			if lr.root.depth >= 2 {
 				info.ResetNested = true
 			}
@@ -409,7 +488,21 @@ func (lr *liveRound) finish(info *SessionInfo) *vstat.Violation {
 	if v := lr.runProg("late", lr.r.Late, info); v != nil {
 		return v
 	}
-	if !lr.r.Partial && !lr.dead {
+	// the programs ended between a failed Reset and an accepted one: Reset until every leaf accepts it (bounded), then
+	// the complete merge must come out
+	for tries := 0; lr.limbo && !lr.r.Partial && !lr.dead && tries < 64; tries++ {
+		can := !lr.pending()
+		err := lr.root.mix.Reset()
+		if !can {
+			continue
+		}
+		if err != nil {
+			return vstat.V("mixer:reset-failed", "round %d (%s): Reset #%d after the programs returned %v although every leaf can be reset%s", lr.no, lr.r.Shape, tries+1, err, flakyNote(lr.flakies...))
+		}
+		lr.recovered(info)
+		lr.k, lr.lastH, lr.sawEnd = 0, nil, false
+	}
+	if !lr.r.Partial && !lr.dead && !lr.limbo {
 		lr.lastH = nil
 		for step := 0; ; step++ {
 			more := lr.k < len(lr.want)
@@ -429,7 +522,7 @@ func (lr *liveRound) finish(info *SessionInfo) *vstat.Violation {
 		if lr.selViol != nil {
 			return vstat.V(lr.selViol.Sig, "round %d (%s): after the final drain: %s", lr.no, lr.r.Shape, lr.selViol.Msg)
 		}
-	} else if lr.k < len(lr.want) && lr.r.Close != CloseNone {
+	} else if lr.k < len(lr.want) && lr.r.Close != CloseNone && !lr.limbo {
 		info.ClosedMidway = true
 		if lr.lastH != nil && *lr.lastH {
 			info.ClosedLook = true
@@ -567,6 +660,10 @@ func (s Session) Hash() uint64 {
 			b |= 2
 		}
 		mix(b)
+		for _, f := range r.Flaky {
+			mix(uint64(f.K) | 0x100)
+			mixs(f.Err)
+		}
 		mix(0xfffd)
 	}
 	return h
@@ -576,7 +673,7 @@ func (s Session) Hash() uint64 {
 // earlier one was closed, two trees alive at once, a mixer over two mixers or three levels of mixers, a
 // refused or successful Reset of a nested tree after elements were emitted, or a tie inside a nested tree.
 func (i SessionInfo) NonTrivial() bool {
-	return i.AfterClose || i.Overlap || i.BothSidesMixers || i.Depth3 || (i.Nested && (i.Tie || i.ResetRefused))
+	return i.AfterClose || i.Overlap || i.BothSidesMixers || i.Depth3 || (i.Nested && (i.Tie || i.ResetRefused || i.ResetRecovered))
 }
 
 // Classes for the histogram.
@@ -613,6 +710,13 @@ func (i SessionInfo) Classes() []string {
 	add(i.ValueLeaf, "session_value_type_leaf")
 	add(i.SameValueSiblings, "session_mixer_over_two_leaves_of_one_value_type")
 	add(i.SameValueSiblings && i.ResetNested, "session_mixer_over_two_leaves_of_one_value_type_in_a_reset_nested_tree")
+	add(i.FlakyLeaves == 1, "session_one_leaf_fails_reset_transiently")
+	add(i.FlakyLeaves >= 2, "session_ge_2_leaves_fail_reset_transiently")
+	add(i.FlakyBelowInner, "session_transiently_failing_leaf_below_inner_mixer")
+	add(i.ResetTransient, "session_reset_while_a_leaf_fails_transiently")
+	add(i.ResetRecovered, "session_accepted_reset_after_a_failed_one")
+	add(i.RecoveredAfterRead, "session_accepted_reset_after_a_failed_one_with_calls_in_between")
+	add(i.RecoveredNested, "session_accepted_reset_after_a_failed_one_on_nested_tree")
 	add(i.SelCalls > 0, "session_selector_consulted")
 	add(i.Emitted >= 20, "session_emitted_ge_20")
 	return c
